@@ -80,6 +80,7 @@ class Harness:
         self.panic = None           # should_panic harness: the panic message that MUST be the (only) failure
         self.l2 = False             # driver-generated composition instance (oracle names carry the property id)
         self.safety = None          # properties for which a memory-safety failure of this harness counts
+        self.alias = {}             # property -> obligation prefixes that also count for it in this harness
 
     @property
     def fq(self):
@@ -117,6 +118,9 @@ def parse_annot(h, text):
             h.l2 = True
         elif part.startswith("safety="):
             h.safety = part[7:].split(",")
+        elif part.startswith("alias="):
+            k, v = part[6:].split(":")
+            h.alias[k] = v.split("+")
         else:
             raise SystemExit("bad annotation part %r" % part)
 
@@ -433,7 +437,7 @@ def main(a):
             if h.l2:
                 d = c["description"]
                 m = re.match(r"(C\d\d)::", d)
-                if k == "named" and m and m.group(1) != pid:
+                if k == "named" and m and m.group(1) != pid and m.group(1) not in h.alias.get(pid, []):
                     other_prop.append("%s: %s" % (h.name, d))      # reported by that property's own check
                     continue
                 if k == "named" and d.startswith("Inv_idle::"):
